@@ -157,6 +157,11 @@ struct Container {
     line: i32,
     is_struct: bool,
     sizes: Vec<u16>,
+    /// the contract names a base that is defined in the file and has members of its own: whether "its
+    /// members" include the inherited ones is not stated, so nothing is demanded of it
+    populated_base: bool,
+    /// `library` / `interface`: the statement speaks of contracts and structs; only "never when optimal" is demanded
+    not_a_contract: bool,
 }
 
 /// Build a file with several contracts / structs, each head on its own line.
@@ -167,6 +172,8 @@ fn gen_file(t: &mut Tape) -> (String, Vec<Container>) {
     let mut conts = Vec::new();
     let n = t.range(1, 4);
     let mut id = 0;
+    // indices of the contracts that declare members (a base among them brings inherited storage)
+    let mut populated: Vec<usize> = Vec::new();
     let members = |t: &mut Tape, text: &mut String, line: &mut i32, id: &mut usize, max: usize| -> Vec<u16> {
         let k = t.below(max + 1);
         let mut sizes = Vec::new();
@@ -204,16 +211,19 @@ fn gen_file(t: &mut Tape) -> (String, Vec<Container>) {
                 let sizes = members(t, &mut text, &mut line, &mut id, 8);
                 text.push_str("}\n");
                 line += 1;
-                conts.push(Container { line: l, is_struct: true, sizes });
+                conts.push(Container { line: l, is_struct: true, sizes, populated_base: false, not_a_contract: false });
             }
             _ => {
                 let l = line;
                 let kw = *t.pick(&["contract", "contract", "abstract contract", "library", "interface"]);
                 // a base contract, defined earlier in the file or not at all: the verdict concerns the
                 // contract's own members
+                let mut populated_base = false;
                 let base = if kw.ends_with("contract") && c > 0 && t.chance(90) {
                     if t.chance(180) {
-                        format!(" is C{}", t.below(c))
+                        let b = t.below(c);
+                        populated_base = populated.contains(&b);
+                        format!(" is C{}", b)
                     } else {
                         " is Base , Ownable ( 1 )".to_string()
                     }
@@ -236,7 +246,7 @@ fn gen_file(t: &mut Tape) -> (String, Vec<Container>) {
                     let ss = members(t, &mut text, &mut line, &mut id, 8);
                     text.push_str("}\n");
                     line += 1;
-                    conts.push(Container { line: sl, is_struct: true, sizes: ss });
+                    conts.push(Container { line: sl, is_struct: true, sizes: ss, populated_base: false, not_a_contract: false });
                 }
                 // a function in between does not occupy storage
                 if t.chance(80) {
@@ -247,7 +257,10 @@ fn gen_file(t: &mut Tape) -> (String, Vec<Container>) {
                 sizes.extend(more);
                 text.push_str("}\n");
                 line += 1;
-                conts.push(Container { line: l, is_struct: false, sizes });
+                if !sizes.is_empty() {
+                    populated.push(c);
+                }
+                conts.push(Container { line: l, is_struct: false, sizes, populated_base, not_a_contract: !kw.ends_with("contract") });
             }
         }
     }
@@ -305,10 +318,14 @@ fn file_case(check: &str, text: &str, conts: &[Container], st: &mut Stats) -> Ve
         if wrong_kind {
             out.push(Violation::new(check, format!("{which}:reported-by-other-detector"), format!("the {which} on line {} is reported by the detector for the other kind", c.line), case.clone()));
         }
+        if c.populated_base {
+            st.count("containers_with_a_populated_base_(undecided)");
+            continue;
+        }
         if reported && declared <= opt {
             out.push(Violation::new(check, format!("{which}:reported-although-optimal"), format!("{which} on line {} with sizes {:?} is reported although its declared order already uses the minimum of {} slots", c.line, c.sizes, opt), case.clone()));
         }
-        if !reported && slot_model(&asc) < declared && slot_model(&desc) < declared {
+        if !reported && !c.not_a_contract && slot_model(&asc) < declared && slot_model(&desc) < declared {
             out.push(Violation::new(check, format!("{which}:not-reported-although-sorting-saves"), format!("{which} on line {} with sizes {:?} is not reported although sorting either way saves a slot ({} -> {}/{})", c.line, c.sizes, declared, slot_model(&asc), slot_model(&desc)), case.clone()));
         }
     }
